@@ -5,5 +5,5 @@ CONSTANTS
   QCap = 2
   Dev = {}
 INVARIANTS AfterDeleted KillIsComplete
-PROPERTIES Returns LoopNeverStuck
+PROPERTIES Returns LoopNeverStuck HelpersEnd
 CHECK_DEADLOCK FALSE
